@@ -5,6 +5,7 @@ import ast
 import copy
 import json
 import os
+import sys
 import time
 import traceback
 import z3
@@ -621,9 +622,14 @@ class Verifier:
                         g.add(t == B)
                     for t in coords:
                         g.add(t >= -1, t <= B)
-                    if STATS.timed(lambda: g.check()) == z3.sat:
+                    rg = STATS.timed(lambda: g.check())
+                    if os.environ.get('PYVC_DEBUG_GROUND'):
+                        print('GROUND', B, rg, g.reason_unknown() if rg == z3.unknown else '', file=sys.stderr)
+                    if rg == z3.sat:
                         return 'sat', g.model()
-                except (MemoryError, z3.Z3Exception):
+                except (MemoryError, z3.Z3Exception) as ex:
+                    if os.environ.get('PYVC_DEBUG_GROUND'):
+                        print('GROUND', B, 'exception', repr(ex)[:300], file=sys.stderr)
                     break
         return 'unknown', None
 
